@@ -183,6 +183,15 @@ public:
 
       return junk;
    }
+   const R& operator[](int n) const
+   {
+      __CPROVER_assert(0 <= n && n < dm, "VectorBase::operator[]: index within dimension");
+
+      if(n == g_k)
+         return kval;
+
+      return junk;
+   }
 };
 
 /* ---------------------------------------------------------------------------------------------
@@ -687,6 +696,24 @@ public:
    CIF_GETVEC(getLowerReal, lower)
    CIF_GETVEC(getUpperReal, upper)
    CIF_GETVEC(getObjReal, obj)
+
+   /* the solver-internal (possibly scaled) vectors: exist in the real class, hand out values that are NOT the
+    * getter's result (g_ret_d of the call slot), so a C function that reads them instead of calling the getter
+    * is decided by its contract rather than rejected by the front end */
+#define CIF_INTERNALVEC(name)                                  \
+   const VectorBase<R>& name() const                           \
+   {                                                           \
+      static VectorBase<R> iv(0);                              \
+      int c = cif_rec(CID_internalVector, this);               \
+      iv.dm = g_ret_i[c];                                      \
+      iv.kval = g_ret_d[c];                                    \
+      return iv;                                               \
+   }
+   CIF_INTERNALVEC(lowerRealInternal)
+   CIF_INTERNALVEC(upperRealInternal)
+   CIF_INTERNALVEC(lhsRealInternal)
+   CIF_INTERNALVEC(rhsRealInternal)
+   CIF_INTERNALVEC(maxObjRealInternal)
 
    /* row getters */
    void getRowVectorReal(int i, DSVectorBase<R>& row) const
